@@ -87,34 +87,60 @@ def swapOp (toks : List String) : Option String := do
   let [num, den] ← ints toks | none
   pure s!"swap={bit (swapOf num den)}"
 
-/-- independent objectives (Core/Tour): kind 0 = TSP closed tour, kind 1 = depot routes (CVRP) -/
-def objective (kind : Int) (D : Nat → Nat → Int) (as : List Nat) : Int :=
-  if kind = 0 then closedLen D as else routesLen D as
+/-- an instance as the evaluation checks see it: distance matrix (ticks), node prizes (OP; 0 elsewhere), length budget -/
+structure EInst where
+  D : Nat → Nat → Int
+  prize : Nat → Int
+  maxLen : Int
+
+instance : Inhabited EInst := ⟨⟨fun _ _ => 0, fun _ => 0, 0⟩⟩
+
+/-- `m² ` matrix entries, then optionally `m` prizes and the length budget -/
+def parseInst (m : Nat) (xs : List Int) : EInst :=
+  { D := fn2 m (xs.take (m * m)), prize := fn1 ((xs.drop (m * m)).take m), maxLen := (xs.drop (m * m + m)).headD 0 }
+
+def distinctCustomers (as : List Nat) : List Nat := (as.filter (· ≠ 0)).eraseDups
+
+/-- independent objectives (Core/Tour), as COSTS (reward = −objective): kind 0 = TSP closed tour, kind 1 = depot routes
+(CVRP), kind 2 = orienteering: minus the prizes of the distinct customers visited -/
+def objective (kind : Int) (i : EInst) (as : List Nat) : Int :=
+  if kind = 0 then closedLen i.D as
+  else if kind = 1 then routesLen i.D as
+  else - ((distinctCustomers as).map i.prize).sum
 
 /-- the env's reward as the evaluators see it (model of `get_reward` on one instance) -/
-def rewardOf (kind : Int) (D : Nat → Nat → Int) (as : List Nat) : Int :=
-  if kind = 0 then - rollLen D as else - rollLen D (0 :: as)
+def rewardOf (kind : Int) (i : EInst) (as : List Nat) : Int :=
+  if kind = 0 then - rollLen i.D as
+  else if kind = 1 then - rollLen i.D (0 :: as)
+  else (as.map i.prize).sum
 
-/-- `aug.cost kind m | D (m² row-major) | actions` -/
+/-- Spec feasibility of a returned solution where the evaluation checks need it: OP — no customer twice, and the tour
+depot → … → depot within the budget -/
+def feasible (kind : Int) (i : EInst) (as : List Nat) : Bool :=
+  if kind = 2 then
+    ((as.filter (· ≠ 0)).length == (distinctCustomers as).length) && decide (pathLen i.D (0 :: as ++ [0]) ≤ i.maxLen)
+  else true
+
+/-- `aug.cost kind m | D (m² row-major) [prizes (m) maxlen] | actions` -/
 def costOp (toks : List String) : Option String := do
   let [hd, dm, acts] ← parseSections toks | none
   let [kind, m] := hd | none
-  let D := fn2 m.toNat dm
-  pure s!"obj={objective kind D (toNats acts)} reward={rewardOf kind D (toNats acts)}"
+  let i := parseInst m.toNat dm
+  pure s!"obj={objective kind i (toNats acts)} reward={rewardOf kind i (toNats acts)} feas={bit (feasible kind i (toNats acts))}"
 
 def resStr (out : List (Int × List Nat)) : String :=
   s!"rewards={intsStr (out.map (·.1))} actions={";".intercalate (out.map fun ra => natsStr ra.2)}"
 
-/-- `aug.inner method kind m B A S L | D_0 | … | D_{B-1} | actions (rows × L, flat)`
+/-- `aug.inner method kind m B A S L | inst_0 | … | inst_{B-1} | actions (rows × L, flat)`
 method 0 greedy, 1 augment (K = A), 2 multistart (K = S), 3 multistart+augment, 4 sampling (K = S) -/
 def innerOp (toks : List String) : Option String := do
   let secs ← parseSections toks
   let hd :: rest := secs | none
   let [method, kind, m, B, A, S, L] := hd | none
   if rest.length ≠ B.toNat + 1 then none
-  let insts : List (Nat → Nat → Int) := (rest.take B.toNat).map (fn2 m.toNat)
+  let insts : List EInst := (rest.take B.toNat).map (parseInst m.toNat)
   let acts : List (List Nat) := chunkN L.toNat (toNats (rest.getD B.toNat []))
-  let rew : (Nat → Nat → Int) → List Nat → Int := rewardOf kind
+  let rew : EInst → List Nat → Int := rewardOf kind
   let out :=
     if method = 0 then Rl4co.Eval.greedyInner rew insts acts
     else if method = 1 then Rl4co.Eval.bestOfInner rew A.toNat insts acts
@@ -122,6 +148,23 @@ def innerOp (toks : List String) : Option String := do
     else if method = 3 then Rl4co.Eval.msAugInner rew A.toNat S.toNat insts acts
     else Rl4co.Eval.samplingInner rew S.toNat insts acts
   pure (resStr out)
+
+/-- `aug.callseq listsLocal | n_1 r a r a … | n_2 … ` — a history of calls on ONE evaluator object; every call section is
+the loader batch size followed by the per-instance (reward, single action) results; returns the length and rewards of the
+LAST call's result (`callSeq`) -/
+def callSeqOp (toks : List String) : Option String := do
+  let secs ← parseSections toks
+  let hd :: calls := secs | none
+  let [flag] := hd | none
+  let rec pairs : List Int → List (Int × List Nat)
+    | r :: a :: t => (r, [a.toNat]) :: pairs t
+    | _ => []
+  let cs : List (Nat × List (Int × List Nat)) := calls.filterMap fun c => match c with
+    | n :: t => some (n.toNat, pairs t)
+    | [] => none
+  let res := Rl4co.Eval.callSeq (flag != 0) (fun (b : List (Int × List Nat)) => b) Rl4co.Eval.EvalObj.fresh cs
+  let last := res.getLastD ([], [])
+  pure s!"rewards={intsStr last.1} n={last.1.length} listsLocal={bit Params.augEvalListsLocal}"
 
 /-- `aug.select K L | rewards | actions flat` → unbatchify / max / gather alone -/
 def selectOp (toks : List String) : Option String := do
@@ -160,7 +203,7 @@ def loopOp (toks : List String) : Option String := do
 
 def handlers : List (String × (List String → Option String)) :=
   [("aug.dihedral", dihedralOp), ("aug.sym", symOp), ("aug.symraw", symRawOp), ("aug.normalize", normalizeOp), ("aug.cache", cacheOp), ("aug.swap", swapOp), ("aug.cost", costOp),
-   ("aug.inner", innerOp), ("aug.select", selectOp), ("aug.concat", concatOp), ("aug.chunks", chunksOp),
+   ("aug.inner", innerOp), ("aug.callseq", callSeqOp), ("aug.select", selectOp), ("aug.concat", concatOp), ("aug.chunks", chunksOp),
    ("aug.loop", loopOp)]
 
 end Rl4co.Driver.Aug
